@@ -132,38 +132,70 @@ CandidateNames(c) == {i \in NameIx : Callable(c, i) /\ BaseCap(c, i) # {}}
 CandTab == TLCEval([c \in CfgIx |-> UNION {BaseCap(c, i) : i \in CandidateNames(c)}])
 Candidates(c) == CandTab[c]
 
+(* Two things a sandbox must NOT depend on:                                  *)
+(* (1) what the script itself has bound.  Shadow(c) are the names callable   *)
+(*     in the unsandboxed configuration and not in c (the difference of the  *)
+(*     two tables: source, system, sys, import, slurpf, ...).  A script may  *)
+(*     define them (def, defn or defmac: a name cannot be a macro and a      *)
+(*     global at once) before it calls anything; a script-made binding is a  *)
+(*     closure over nothing and has no capability, and it gives none to any  *)
+(*     other name: CapOf is not a function of the script's definitions.      *)
+(* (2) the history of the process.  Callable(c, .) is a function of the      *)
+(*     configuration alone: the same whether the sandboxed interpreter is    *)
+(*     the first of its process or an unsandboxed one (NewZlisp +            *)
+(*     StandardSetup) was created and used before it or in between.          *)
+(*     U.unstable lists the bindings the dump saw differ between the orders. *)
+FullCfg == CHOOSE c \in CfgIx : ~Sandboxed(c)
+ShadowTab == TLCEval([c \in CfgIx |-> {i \in NameIx : Callable(FullCfg, i) /\ ~Callable(c, i)}])
+Shadow(c) == ShadowTab[c]
+ShadowSeqTab == TLCEval([c \in CfgIx |->
+                   LET ix == SelectSeq([i \in NameIx |-> i], LAMBDA i : i \in ShadowTab[c])
+                   IN [k \in 1..Len(ix) |-> NameOf(ix[k])]])
+ShadowSeq(c) == ShadowSeqTab[c]
+Preludes == {"", "def", "defn", "defmac"}
+Histories == {"", "after"}
+InProcess == {"bare", "std"}
+HistoryStable == U.unstable = <<>>
+
 -----------------------------------------------------------------------------
 (* The derivation closure as a state machine: a script picks a name, wraps  *)
 (* it in derivations, calls it; world collects the capabilities exercised. *)
 CONSTANTS MaxDepth,   \* bound on the number of nested derivations
           Mint        \* self-test: TRUE adds a derivation that mints capability (a foreign-function route)
 
-VARIABLES cfg, nm, route, world
-vars == <<cfg, nm, route, world>>
+VARIABLES cfg, nm, route, world,
+          defs     \* the names the script has bound itself: none, or all of Shadow(cfg) (the prelude)
+vars == <<cfg, nm, route, world, defs>>
 
-Init == /\ cfg \in CfgIx /\ nm \in NameIx /\ route = <<>> /\ world = {}
+Init == /\ cfg \in CfgIx /\ nm \in NameIx /\ route = <<>> /\ world = {} /\ defs = {}
+
+(* the script binds a name the sandbox lacks: legal, and without effect on any capability *)
+Define == /\ defs = {} /\ world = {} /\ route = <<>> /\ Shadow(cfg) # {}
+          /\ defs' = Shadow(cfg)
+          /\ UNCHANGED <<cfg, nm, route, world>>
 
 Derive(r) == /\ Len(route) < MaxDepth
              /\ route' = Append(route, r)
-             /\ UNCHANGED <<cfg, nm, world>>
+             /\ UNCHANGED <<cfg, nm, world, defs>>
 
 Call == /\ world' = world \cup CapOf(cfg, nm, route)
-        /\ UNCHANGED <<cfg, nm, route>>
+        /\ UNCHANGED <<cfg, nm, route, defs>>
 
 (* NOT part of the design: reaching a primitive that no binding gives *)
 Reflect == /\ Mint
            /\ world' = world \cup PrimCap(NameOf(nm))
-           /\ UNCHANGED <<cfg, nm, route>>
+           /\ UNCHANGED <<cfg, nm, route, defs>>
 
-Next == (\E r \in Routes : Derive(r)) \/ Call \/ Reflect
+Next == (\E r \in Routes : Derive(r)) \/ Call \/ Reflect \/ Define
 Spec == Init /\ [][Next]_vars
 
-TypeOK == /\ cfg \in CfgIx /\ nm \in NameIx /\ world \subseteq Caps
+TypeOK == /\ cfg \in CfgIx /\ nm \in NameIx /\ world \subseteq Caps /\ defs \subseteq Shadow(cfg)
           /\ Len(route) <= MaxDepth /\ \A k \in 1..Len(route) : route[k] \in Routes
 
 (* no derivation yields a capability that no callable name of the configuration has *)
 NoMinting == world \subseteq Candidates(cfg)
 (* a name the configuration cannot call stays without capability under every derivation *)
+(* (also when the script has bound that very name itself: defs) *)
 DeadStaysDead == ~Callable(cfg, nm) => world = {}
 (* THE PROPERTY (of the configuration, given the capability table): *)
 SandboxClosed == Sandboxed(cfg) => world = {}
